@@ -286,9 +286,235 @@ Section Positions.
     pose proof (Sl 0 ltac:(lia)) as S0. pose proof (Sl 1 ltac:(lia)) as S1. pose proof (Sl 2 ltac:(lia)) as S2.
     pose proof (Sl 3 ltac:(lia)) as S3. pose proof (Sl 4 ltac:(lia)) as S4. pose proof (Sl 5 ltac:(lia)) as S5.
     cbv beta iota delta [Z.of_nat Pos.of_succ_nat Pos.succ] in S0, S1, S2, S3, S4, S5.
-    destruct i as [|[|[|[|[|[|i]]]]]]; [| | | | | lia];
+    destruct i as [|[|[|[|[|[|i]]]]]]; [| | | | | | exfalso; clear - Hi; lia];
       cbv beta iota delta [HEX_XF HEX_XB HEX_YF HEX_YB HEX_ZF HEX_ZB Z.eqb Pos.eqb Z.of_nat Pos.of_succ_nat Pos.succ];
       unfold bind;
       [rewrite S1 | rewrite S0 | rewrite S3 | rewrite S2 | rewrite S5 | rewrite S4]; reflexivity.
   Qed.
 End Positions.
+
+(* ================================================================== 4. the topology-checked add_cell *)
+
+Lemma append_cell_handle s l : snd (append_cell s l) = nc s.
+Proof. unfold append_cell. cbv zeta. destruct (fbu _); reflexivity. Qed.
+
+(* what the checked add_cell can do: (a) return the invalid handle and leave the mesh UNCHANGED; (b) append exactly
+   one cell - the given list when it passes check_halfface_ordering, otherwise the re-ordered list - and touch no
+   face; (c) hit an invalid handle left by the re-ordering (HUB) *)
+Theorem hex_add_cell_checked_cases s hfs :
+  hex_add_cell s hfs true = HUB \/
+  hex_add_cell s hfs true = HOk s None \/
+  exists s' l, hex_add_cell s hfs true = HOk s' (Some (nc s)) /\ cells s' = cells s ++ [l] /\ faces s' = faces s /\
+               length l = 6 /\
+               ((check_halfface_ordering s hfs = true /\ l = hfs) \/
+                (check_halfface_ordering s hfs = false /\
+                 exists b, reorder_bottom s hfs = Some b /\ all_some (upd 1 (Some b) (reorder_top s hfs)) = Some l)).
+Proof.
+  unfold hex_add_cell.
+  destruct (Nat.eqb_spec (length hfs) 6) as [E|E]; cbn [negb]; [|right; left; reflexivity].
+  destruct (negb (forallb _ hfs)); [right; left; reflexivity|].
+  destruct (check_halfface_ordering s hfs) eqn:C.
+  - unfold add_cell. destruct (true && negb (cell_check s hfs)); [right; left; reflexivity|].
+    right. right. destruct (fc_append_cell s hfs) as (a&b&_). pose proof (append_cell_handle s hfs) as R.
+    destruct (append_cell s hfs) as [s' c]. cbn [fst snd] in *. subst c. exists s', hfs.
+    repeat split; try assumption. left. split; reflexivity.
+  - destruct (reorder_bottom s hfs) as [b|] eqn:B; [|right; left; reflexivity].
+    unfold add_cell_o. destruct (true && negb (cell_check_o s _)); [right; left; reflexivity|].
+    destruct (all_some (upd 1 (Some b) (reorder_top s hfs))) as [l|] eqn:A; [|left; reflexivity].
+    right. right. destruct (fc_append_cell s l) as (a&b'&_). pose proof (append_cell_handle s l) as R.
+    destruct (append_cell s l) as [s' c]. cbn [fst snd] in *. subst c. exists s', l.
+    pose proof (all_some_length _ _ A) as Ll. rewrite upd_length, reorder_top_length in Ll.
+    repeat split; try assumption. right. split; [reflexivity|]. exists b. split; [reflexivity | exact A].
+Qed.
+
+(* the halfface lists of a state do not depend on its cells: the ordering check of a stored list is the check that
+   was made when it was accepted *)
+Lemma halfface_faces s t hf : faces t = faces s -> halfface t hf = halfface s hf.
+Proof. intros E. unfold halfface, face_at. rewrite E. reflexivity. Qed.
+
+Lemma find_ext' {A} (f g : A -> bool) l : (forall x, f x = g x) -> find f l = find g l.
+Proof. intros H. induction l as [|x l IH]; [reflexivity|]. simpl. rewrite H, IH. reflexivity. Qed.
+
+Lemma get_adjacent_faces s t a b l : faces t = faces s -> get_adjacent_halfface t a b l = get_adjacent_halfface s a b l.
+Proof.
+  intros E. unfold get_adjacent_halfface. destruct b; [|reflexivity]. apply find_ext'. intros x.
+  rewrite (halfface_faces s t x E). reflexivity.
+Qed.
+
+Lemma check_ordering_faces s t l : faces t = faces s -> check_halfface_ordering t l = check_halfface_ordering s l.
+Proof.
+  intros E. unfold check_halfface_ordering, ord_pass. rewrite !(halfface_faces s t _ E).
+  assert (G : forall self first order hes st,
+              fold_left (ord_step t l self first order) hes st = fold_left (ord_step s l self first order) hes st).
+  { intros self first order. induction hes as [|he hes IH]; intros st; [reflexivity|]. cbn [fold_left]. rewrite IH. f_equal.
+    unfold ord_step. destruct st as [[o|]|]; try reflexivity; rewrite (get_adjacent_faces s t _ _ _ E); reflexivity. }
+  rewrite !G. reflexivity.
+Qed.
+
+(* accepted without re-ordering: the stored list passes the ordering check in the new state *)
+Theorem hex_add_cell_direct_stores_ordered s hfs s' c :
+  check_halfface_ordering s hfs = true -> hex_add_cell s hfs true = HOk s' (Some c) ->
+  cell_at s' c = hfs /\ check_halfface_ordering s' (cell_at s' c) = true.
+Proof.
+  intros C H. destruct (hex_add_cell_checked_cases s hfs) as [U|[R|(s1&l&E&Cs&Fs&_&[[_ ->]|[C' _]])]]; try congruence.
+  rewrite E in H. inversion H; subst s1 c.
+  assert (X : cell_at s' (nc s) = hfs) by (unfold cell_at, nc; rewrite Cs, app_nth2, Nat.sub_diag by lia; reflexivity).
+  split; [exact X|]. rewrite X, (check_ordering_faces s s' hfs Fs). exact C.
+Qed.
+
+(* the re-ordering on a halfface with four halfedges each of which has a neighbour in the list: no invalid entry, the
+   four neighbours land on positions 2, 4, 3, 5 in the order of the halfedges *)
+Lemma reorder_top_four s hfs e0 e1 e2 e3 a0 a1 a2 a3 :
+  halfface s (hx hfs 0) = [e0; e1; e2; e3] ->
+  get_adjacent_halfface s (Some (hx hfs 0)) (Some e0) hfs = Some a0 ->
+  get_adjacent_halfface s (Some (hx hfs 0)) (Some e1) hfs = Some a1 ->
+  get_adjacent_halfface s (Some (hx hfs 0)) (Some e2) hfs = Some a2 ->
+  get_adjacent_halfface s (Some (hx hfs 0)) (Some e3) hfs = Some a3 ->
+  reorder_top s hfs = [Some (hx hfs 0); None; Some a0; Some a2; Some a1; Some a3].
+Proof. intros H A0 A1 A2 A3. unfold reorder_top. rewrite H. cbn [fold_left]. rewrite A0, A1, A2, A3. reflexivity. Qed.
+
+(* hence: when every halfedge of the first halfface has a neighbour in the list, the re-ordering path never reaches HUB *)
+Theorem hex_add_cell_no_ub s hfs e0 e1 e2 e3 a0 a1 a2 a3 :
+  halfface s (hx hfs 0) = [e0; e1; e2; e3] ->
+  get_adjacent_halfface s (Some (hx hfs 0)) (Some e0) hfs = Some a0 ->
+  get_adjacent_halfface s (Some (hx hfs 0)) (Some e1) hfs = Some a1 ->
+  get_adjacent_halfface s (Some (hx hfs 0)) (Some e2) hfs = Some a2 ->
+  get_adjacent_halfface s (Some (hx hfs 0)) (Some e3) hfs = Some a3 ->
+  hex_add_cell s hfs true <> HUB.
+Proof.
+  intros H A0 A1 A2 A3. unfold hex_add_cell.
+  destruct (negb (length hfs =? 6)); [discriminate|]. destruct (negb (forallb _ hfs)); [discriminate|]. cbn [negb].
+  destruct (check_halfface_ordering s hfs); [destruct (add_cell s hfs true); discriminate|].
+  destruct (reorder_bottom s hfs) as [b|]; [|discriminate].
+  rewrite (reorder_top_four s hfs e0 e1 e2 e3 a0 a1 a2 a3 H A0 A1 A2 A3).
+  unfold add_cell_o. destruct (true && negb (cell_check_o s _)); [discriminate|]. cbn.
+  destruct (append_cell s _); discriminate.
+Qed.
+
+(* ================================================================== 5. sheet circulators *)
+
+(* cell_sheet_cells(c, d) reports exactly the cells incident to the opposite halfface of a halfface of c whose
+   position is neither d nor the opposite of d - strictly ascending, hence without duplicates *)
+Theorem cell_sheet_cells_spec s c d n : fbu s = true ->
+  (In n (cell_sheet_cells s c d) <->
+   exists hf, In hf (cell_at s c) /\ orientation s hf c <> d /\ orientation s hf c <> HEX_opposite_orientation d /\
+              cell_of s (opp hf) = Some n).
+Proof.
+  intros F. unfold cell_sheet_cells. rewrite F. cbn [negb]. rewrite set_of_list_In, in_flat_map. split.
+  - intros (hf&Hin&H). exists hf. split; [exact Hin|].
+    destruct (Z.eqb_spec (orientation s hf c) d) as [E|E]; cbn [negb andb] in H; [contradiction|].
+    destruct (Z.eqb_spec (orientation s hf c) (HEX_opposite_orientation d)) as [E'|E']; cbn [negb] in H; [contradiction|].
+    destruct (cell_of s (opp hf)) as [m|]; [|contradiction]. destruct H as [<-|[]]. repeat split; assumption.
+  - intros (hf&Hin&N1&N2&C). exists hf. split; [exact Hin|].
+    destruct (Z.eqb_spec (orientation s hf c) d) as [E|E]; [contradiction|].
+    destruct (Z.eqb_spec (orientation s hf c) (HEX_opposite_orientation d)) as [E'|E']; [contradiction|].
+    cbn [negb andb]. rewrite C. left. reflexivity.
+Qed.
+
+Theorem cell_sheet_cells_sorted s c d : strictly_sorted (cell_sheet_cells s c d).
+Proof. unfold cell_sheet_cells. destruct (negb (fbu s)); [constructor | apply set_of_list_sorted]. Qed.
+
+(* halfface_sheet_halffaces(hf): the matching halffaces of the sheet neighbours of hf's cell in hf's own direction *)
+Theorem halfface_sheet_spec s hf hf' e : fbu s = true ->
+  (In (hf', e) (halfface_sheet_halffaces s hf) <->
+   exists ch n he, cell_of s hf = Some ch /\ In n (cell_sheet_cells s ch (orientation s hf ch)) /\ In hf' (cell_at s n) /\
+                   find (fun h => memb h (halfface s (opp hf))) (halfface s hf') = Some he /\ e = he / 2).
+Proof.
+  intros F. unfold halfface_sheet_halffaces. rewrite F. cbn [negb]. destruct (cell_of s hf) as [ch|].
+  - rewrite in_flat_map. split.
+    + intros (n&Hn&H). rewrite in_flat_map in H. destruct H as (x&Hx&H).
+      destruct (find _ (halfface s x)) as [he|] eqn:Fd; [|contradiction]. destruct H as [H|[]]. inversion H; subst.
+      exists ch, n, he. repeat split; assumption.
+    + intros (ch'&n&he&E&Hn&Hx&Fd&->). inversion E; subst ch'. exists n. split; [exact Hn|].
+      rewrite in_flat_map. exists hf'. split; [exact Hx|]. rewrite Fd. left. reflexivity.
+  - split; [contradiction|]. intros (ch&n&he&E&_). discriminate.
+Qed.
+
+(* ================================================================== 6. hex_vertices: the first four *)
+
+Lemma find_index_nodup (l : list nat) i : NoDup l -> i < length l -> find_index (Nat.eqb (nth i l 0)) l = Some i.
+Proof.
+  intros ND Hi. unfold find_index. rewrite (find_index_from_first _ l i 0 0); [reflexivity | exact Hi | apply Nat.eqb_refl|].
+  intros j Hj. apply Nat.eqb_neq. intros E. assert (i = j); [|lia]. apply (proj1 (NoDup_nth l 0) ND); [lia | lia | exact E].
+Qed.
+
+(* first four: the first halfface's vertices AGAINST its cyclic order, starting at the source of its first halfedge *)
+Theorem hex_vertices_first_four s c hfs hf0 e0 e1 e2 e3 l :
+  nth_error (cells s) c = Some hfs -> nth_error hfs 0 = Some hf0 -> halfface s hf0 = [e0; e1; e2; e3] -> NoDup [e0; e1; e2; e3] ->
+  hex_vertices s c = Some l -> firstn 4 l = [he_from s e0; he_from s e3; he_from s e2; he_from s e1].
+Proof.
+  intros Hc H0 Hf ND. unfold hex_vertices, bind, rd, prev_he_in_hf. rewrite Hc, H0, Hf. cbn [nth_error].
+  assert (P0 : prev_he_in_hf_list [e0; e1; e2; e3] e0 = Some e3).
+  { unfold prev_he_in_hf_list. pose proof (find_index_nodup [e0; e1; e2; e3] 0 ND ltac:(simpl; lia)) as X. cbn [nth] in X. rewrite X. reflexivity. }
+  assert (P3 : prev_he_in_hf_list [e0; e1; e2; e3] e3 = Some e2).
+  { unfold prev_he_in_hf_list. pose proof (find_index_nodup [e0; e1; e2; e3] 3 ND ltac:(simpl; lia)) as X. cbn [nth] in X. rewrite X. reflexivity. }
+  assert (P2 : prev_he_in_hf_list [e0; e1; e2; e3] e2 = Some e1).
+  { unfold prev_he_in_hf_list. pose proof (find_index_nodup [e0; e1; e2; e3] 2 ND ltac:(simpl; lia)) as X. cbn [nth] in X. rewrite X. reflexivity. }
+  assert (P1 : prev_he_in_hf_list [e0; e1; e2; e3] e1 = Some e0).
+  { unfold prev_he_in_hf_list. pose proof (find_index_nodup [e0; e1; e2; e3] 1 ND ltac:(simpl; lia)) as X. cbn [nth] in X. rewrite X. reflexivity. }
+  rewrite P0, P3, P2, P1.
+  destruct (adjacent_halfface_in_cell s hf0 e0) as [hf1|]; [|discriminate].
+  destruct (next_he_o s (next_he_in_hf s (opp e0) hf1) (Some hf1)) as [e7|]; [|discriminate].
+  intros H. inversion H. reflexivity.
+Qed.
+
+(* ================================================================== 7. whole-domain decisions on the canonical cube *)
+
+(* the cube built by add_cell from eight vertices on an empty mesh *)
+Definition cube_mesh : mesh := hex_run [HK (AddVertices 8); HAddCellV [0; 1; 2; 3; 4; 5; 6; 7] true].
+Definition cube_faces : mesh := hex_run [HK (AddVertices 8); HAddCellV [0; 1; 2; 3; 4; 5; 6; 7] true; HK (EnableDeferred false); HK (DelCell 0)].
+
+Example cube_mesh_layout :
+  cell_at cube_mesh 0 = [0; 2; 4; 6; 8; 10] /\ hex_layout cube_mesh (cell_at cube_mesh 0) = true /\
+  check_halfface_ordering cube_mesh (cell_at cube_mesh 0) = true /\
+  hex_vertices cube_mesh 0 = Some [3; 0; 1; 2; 5; 6; 7; 4] /\ nc cube_faces = 0 /\ nf cube_faces = 6.
+Proof. vm_compute. repeat split. Qed.
+
+Fixpoint insert_all (x : nat) (l : list nat) : list (list nat) :=
+  match l with
+  | [] => [[x]]
+  | y :: t => (x :: l) :: map (cons y) (insert_all x t)
+  end.
+Fixpoint perms (l : list nat) : list (list nat) :=
+  match l with
+  | [] => [[]]
+  | x :: t => flat_map (insert_all x) (perms t)
+  end.
+
+(* one permutation: accepted, stored list is a permutation of the given one, satisfies the documented layout AND the
+   library's own ordering check, and starts with the first given halfface *)
+Definition perm_ok (p : list nat) : bool :=
+  match hex_add_cell cube_faces p true with
+  | HOk s' (Some c) =>
+      let l := cell_at s' c in
+      (c =? 0) && (if list_eq_dec Nat.eq_dec (sort_nat l) (sort_nat p) then true else false) &&
+      hex_layout s' l && check_halfface_ordering s' l && (nth 0 l 0 =? nth 0 p 0)
+  | _ => false
+  end.
+
+Lemma all_720_permutations_ok : length (perms [0; 2; 4; 6; 8; 10]) = 720 /\ forallb perm_ok (perms [0; 2; 4; 6; 8; 10]) = true.
+Proof. vm_compute. split; reflexivity. Qed.
+
+(* every one of the 720 orderings of the canonical cube's halffaces is accepted by the checked add_cell and stored
+   in the documented layout *)
+Theorem checked_add_cell_reorders_every_permutation p : In p (perms [0; 2; 4; 6; 8; 10]) ->
+  exists s' , hex_add_cell cube_faces p true = HOk s' (Some 0) /\
+              hex_layout s' (cell_at s' 0) = true /\ check_halfface_ordering s' (cell_at s' 0) = true /\
+              nth 0 (cell_at s' 0) 0 = nth 0 p 0.
+Proof.
+  intros H. pose proof (proj1 (forallb_forall _ _) (proj2 all_720_permutations_ok) p H) as K. unfold perm_ok in K.
+  destruct (hex_add_cell cube_faces p true) as [s' [c|]|]; try discriminate.
+  repeat (apply andb_true_iff in K; destruct K as [K ?]). apply Nat.eqb_eq in K. subst c.
+  exists s'. repeat split; try assumption. apply Nat.eqb_eq. assumption.
+Qed.
+
+(* the lead of the design phase, decided: a list that is NOT a hexahedron reaches the invalid handle *)
+Definition ub_witness : list hop :=
+  [HK (AddVertices 12);
+   HK (AddFaceV [0; 1; 5; 4]); HK (AddFaceV [0; 3; 2; 1]); HK (AddFaceV [4; 5; 6; 7]); HK (AddFaceV [1; 2; 6; 5]);
+   HK (AddFaceV [2; 3; 7; 6]); HK (AddFaceV [3; 0; 4; 7]); HK (AddFaceV [8; 9; 10; 11])].
+
+Lemma checked_add_cell_ub_refuted :
+  let s := hex_run ub_witness in
+  hex_valid s (HK (AddCell [5; 7; 9; 11; 3; 12] true)) = true /\ hex_step s (HK (AddCell [5; 7; 9; 11; 3; 12] true)) = HRUB.
+Proof. vm_compute. split; reflexivity. Qed.
